@@ -10,6 +10,12 @@ CHECKS = {
  "C08": dict(engine="enum", technique="bounded-exhaustive enumeration of texts with line-locality and planted-error oracles",
    text="Every text up to length 6 (quick) / 8 (thorough) over the syntax alphabet, every short token sequence and every placement of one or two malformed lines among well-formed ones is parsed by the real parser; totality, one-instruction-per-line, line numbering, Empty for blank/comment lines, line-locality and the error kind/line of planted defects are checked on every one.",
    note="Trusted: Rust's catch_unwind for panic detection; the error kind expected for a malformed line is pinned by construction only in the planted-error phase, elsewhere it is differential (line alone vs. line in context).", ref="5/C08"),
+ "C02": dict(engine="enum", technique="bounded-exhaustive enumeration of argument templates x variable environments against a one-pass reference substitution",
+   text="Every template of up to three pieces (literal, ${name}, undefined, dotted name, escaped \\${name}) and every whole-argument %{name}, in three argument positions, is bound by the real runner under every value of the substituted variable up to length 2 (quick) / 3 (thorough) over a 12-character alphabet plus values that look like ${x} / %{x}; the arguments a capture command receives must equal the reference substitution exactly (count and text). A second family goes through the parser as script text.",
+   note="Trusted: the reference substitution (30 lines). Spread values containing '\"' or '#' are only checked for absence of panics because the repository's tests pin shell-like grouping there.", ref="5/C02"),
+ "C06": dict(engine="enum", technique="exhaustive enumeration of all sentences of the condition grammar up to a token bound against a recursive-descent reference evaluator",
+   text="All sentences of the condition grammar with up to 9 (quick) / 12 (thorough) tokens are evaluated by the real not / if / elseif / while commands and compared with a recursive-descent evaluator of the statement's grammar; the truthiness table is swept exhaustively over all case variants of false/no/true/yes and boundary spellings in six statement frames.",
+   note="Trusted: the reference evaluator; marker commands registered by the harness to observe which branch ran.", ref="5/C06"),
 }
 
 NOT_YET = {
